@@ -613,10 +613,13 @@ func (self *Core) runInstruction(instruction compiler.Instruction) *value.VmInte
 			return i
 		}
 
+		// the position of the `throw(..)` itself, not of the instruction which follows it
+		span := self.parent.SourceMap(*self.callFrame())
+
 		self.callFrame().InstructionPointer++
 
 		return value.NewVMThrowInterrupt(
-			self.parent.SourceMap(*self.callFrame()),
+			span,
 			display,
 		)
 	case compiler.Opcode_SetTryLabel:
